@@ -145,6 +145,24 @@ def run(chk, replay=None):
         chk.violation({"class": "loop-program-rejected", "what": "%s || %s" % (a[:160], g.text[:200])},
                       {"program": g.text, "implementation": a, "broken": "a well-typed for_while program is rejected"})
     corelib.run_matrix(chk, acc, fixed_witnesses=True)
+    # the loop call is layout-insensitive like every other call: blanks / comments between any two terminals (inside
+    # `for_while::< f >` too) give the same program
+    import layout
+    lr = chk.sub_rng("respace")
+    sample = [g for g in acc if "//" not in g.text and "/*" not in g.text]
+    sample = lr.sample(sample, min(len(sample), 60 if chk.tier == "quick" else 600))
+    pairs = []
+    for g in sample:
+        pairs.append((g, g.text, layout.respace(lr, g.text, rate=lr.choice([0.3, 1.0]), comments=lr.random() < 0.5)))
+    rs = impl("core", [l for (_, a, b) in pairs for l in ("(commit %s () 0)" % quote(a), "(commit %s () 0)" % quote(b))])
+    for i, (g, a, b) in enumerate(pairs):
+        xa, xb = rs[2 * i], rs[2 * i + 1]
+        chk.case("(commit %s () 0)" % quote(b))
+        chk.count("respaced.%s" % ("same" if xa == xb else "different"))
+        if xa != xb:
+            chk.violation({"class": "loop-program-rejected", "what": "with other blanks: %s || %s" % (xb[:120], b[:200])},
+                          {"cmd": "core", "line": "(commit %s () 0)" % quote(b), "program": b, "original": a, "implementation": xb[:600], "expected": xa[:200],
+                           "broken": "a for_while program written with other blanks / comments between its terminals is rejected or compiles differently"})
     chk.extra["programs"] = len(acc)
     chk.extra["rule"] = ("counter widths 1,2,4,8 (16 thorough) x every exit iteration for <=16 iterations, boundary+random exits above, and no exit at all "
                          "x {order-recording body, body that panics on any iteration after the exit point}; the loop result is folded into a u8 and pinned through EXPECT; "
